@@ -247,11 +247,15 @@ def is_nontrivial(model, rows, nb):
 # ---------------------------------------------------------------------------------------------------
 # observation points
 # ---------------------------------------------------------------------------------------------------
-def observe_direct(prot, rows, rng_seed):
+def observe_direct(prot, rows, rng_seed, index=None):
     from mokapot.picked_protein import picked_protein
 
     df = pd.DataFrame({"Label": [bool(r["target"]) for r in rows], "peptide": [r["written"] for r in rows],
                        "score": [float(r["score"]) for r in rows]})
+    if index == "rev":  # the row labels a sorted / filtered / sampled frame carries: not 0..n-1 in order
+        df.index = list(range(len(df) - 1, -1, -1))
+    elif index == "gaps":
+        df.index = [3 * i + 7 for i in range(len(df))]
     res = picked_protein(df, "Label", "peptide", "score", prot, np.random.default_rng(rng_seed))
     need = ["mokapot protein group", "best peptide", "stripped sequence", "score", "Label"]
     missing = [c for c in need if c not in res.columns]
@@ -334,7 +338,18 @@ def run_table(prot, model, case, acc, work):
     try:
         try:
             if mode == "direct":
-                obs, err = observe_direct(prot, rows, case.get("rng", 0))
+                obs, err = observe_direct(prot, rows, case.get("rng", 0), case.get("index"))
+                if not err and "index" not in case and len(rows) >= 2:
+                    # the same table with other row labels (what sorting / filtering a frame leaves behind)
+                    for kind in ("rev", "gaps") if len(table) <= 1 else ("rev",) if len(table) <= 2 else ():
+                        obs2, err2 = observe_direct(prot, rows, case.get("rng", 0), kind)
+                        acc.count("direct_relabelled_index")
+                        key = lambda o: (o["stripped"], o["score"], o["target"], str(o["group"]), str(o["best"]))
+                        if err2 or sorted(map(key, obs2)) != sorted(map(key, obs)):
+                            report(acc, "picked-depends-on-row-labels", f"direct: the result changes when the frame's "
+                                   f"row labels are {kind} instead of 0..n-1: {err2 or ''}", dict(case, index=kind),
+                                   expected=obs, observed=obs2)
+                            break
             else:
                 sub = work / "e2e"
                 sub.mkdir()
